@@ -82,3 +82,13 @@ _p(
     assumptions=[A1, A7, "extra group options are represented by two opaque-valued keys (the code compares keys only with the three literal names)", "optimizer step formulas p <- p(1 - lr*wd) for zero gradients are assumed (A6) and validated numerically"],
     explanation="Loop-invariant proof of scaled_parameters (initiation: result == [] at loop entry; preservation: an arbitrary iteration of the outer and of the inner loop appends exactly one group mk(entry, param) after the earlier ones; use: the returned list): one parameter per group, same parameter object, every other option carried over by identity, caller's dict / list / lr tensor never written, scaled tensor lr is a fresh tensor, lr*wd == requested decay (independent) or wd passed through.",
 )
+
+BITP = ["pyvc bit-precise mode (pyvc/bitmodel.py): assumed FP/BV semantics of .to, clip, /=, *=, view, +, &, ~, //, <<, randint", "z3 5.1.0 theories FP + BV (cvc5 fallback)"]
+_p(
+    "C13",
+    level="proof",
+    technique="contract-based deductive verification, bit-precise: FPFormat.quantise executed from the real AST into SMT FP/BV terms; obligations discharged by z3 for all 2^32 float32 inputs per format",
+    trusted_base=["pyvc (self-written AST->SMT VC generator over the real source)"] + BITP + ["bitmodel.repr_pred: value-set specification on float32 patterns (cross-checked against an exact Fraction enumeration by trusted/validate_formats.py)"],
+    assumptions=[A7, "torch primitive semantics as listed in pyvc/bitmodel.py (assumed; validated at run time, bounded)", "inputs: every non-NaN float32 bit pattern (|x| < 2^126 when E = 8); formats enumerated: quick 6 formats, thorough all 168 (E 2..8, M 0..23)", "float64 / bfloat16 / float16 inputs: proved equal to the float32 path composed with the conversions (element model), for rank 1 and rank 2 shapes with symbolic dims; 'idempotent' is the consequence of 'representable' and 'representable input unchanged' (both for all inputs)"],
+    explanation="For each format the result element of the real quantise body is an SMT term over the input's float32 pattern; representable, sign, saturation, neighbour (no representable value strictly between), nearest (exact 280-bit scaled-integer distances; slack only below 2^emin), fix-point, odd symmetry, monotonicity (two variables), dtype/shape/frame and the three range properties are discharged by z3 for ALL inputs.",
+)
